@@ -23,6 +23,7 @@ Definition BitPointerValue : N := 63.
 
 Definition has_opts (flags : N) (bit : N) : bool := N.testbit flags bit.
 Definition set_bit (flags : N) (bit : N) : N := N.lor flags (N.shiftl 1 bit).
+Definition clear_bit (flags : N) (bit : N) : N := N.ldiff flags (N.shiftl 1 bit).
 
 Record prims := {
   p_i64toa : Z -> bytes;
@@ -32,7 +33,9 @@ Record prims := {
   p_quote : bytes -> bool -> bytes;
   p_stack : N;                         (* number of vars.Stack frames a Save may fill *)
   (* the option bit each executor's code tests in the ops that read the option word *)
-  b_f32 : N; b_f64 : N; b_map_write_key : N; b_empty_arr : N; b_empty_obj : N; b_recurse : N }.
+  b_f32 : N; b_f64 : N; b_map_write_key : N; b_empty_arr : N; b_empty_obj : N;
+  b_recurse : N;                        (* set when pv, cleared otherwise, in the flag word handed to the callee *)
+  b_eface : N; b_iface : N }.           (* cleared in the flag word of the dynamic value's encoder (fix 40fcf6e) *)
 
 Inductive verr :=
 | E_too_deep            (* vars.ERR_too_deep *)
@@ -268,7 +271,7 @@ Section Exec.
                 | _ => Crash 4
                 end
             | OP_recurse vt pv =>
-                let fv := if pv then set_bit flags (b_recurse P) else flags in
+                let fv := if pv then set_bit flags (b_recurse P) else clear_bit flags (b_recurse P) in
                 call (with_top s f1 rest) vt p fv
             | OP_is_nil l =>
                 match leaf e p with
@@ -327,10 +330,16 @@ Section Exec.
                     end
                 | _ => Crash 15
                 end
-            | OP_eface | OP_iface =>
+            | OP_eface =>
                 match leaf e p with
                 | Some (_, VIface None) => put s_null            (* vt == nil: prim.EncodeNil *)
-                | Some (_, VIface (Some (dt, dv))) => call (with_top s f1 rest) dt (PAt dt dv 0) flags
+                | Some (_, VIface (Some (dt, dv))) => call (with_top s f1 rest) dt (PAt dt dv 0) (clear_bit flags (b_eface P))
+                | _ => Crash 16
+                end
+            | OP_iface =>
+                match leaf e p with
+                | Some (_, VIface None) => put s_null
+                | Some (_, VIface (Some (dt, dv))) => call (with_top s f1 rest) dt (PAt dt dv 0) (clear_bit flags (b_iface P))
                 | _ => Crash 16
                 end
             | OP_is_zero_map l =>
